@@ -49,7 +49,10 @@ F_rstrip = z3.Function("str_rstrip", StrSort, StrSort)
 P_str_lt = z3.Function("str_lt", StrSort, StrSort, BoolSort)
 P_isspace = z3.Function("str_isspace", StrSort, BoolSort)
 
+import re as _re_mod
+
 PURE_EXTERNALS = {
+    _re_mod.compile,
     len, ord, chr, int, float, str, bool, min, max, abs, round, repr, sum, any, all, sorted, tuple,
     math.ceil, math.floor, math.isinf, math.isnan, math.isfinite, divmod, pow, hash,
     decimal.Decimal, operator.mul, operator.add, isinstance, issubclass, range, frozenset,
@@ -291,7 +294,7 @@ class Intrinsics:
                 if isinstance(x, SAny):
                     return F_is_true(x.t) if y else F_is_false(x.t)
                 return False
-        if isinstance(a, (HObj, HList, HDict, HJoin)) or isinstance(b, (HObj, HList, HDict, HJoin)):
+        if isinstance(a, (HObj, HList, HDict, HJoin, HSpecList)) or isinstance(b, (HObj, HList, HDict, HJoin, HSpecList)):
             return getattr(a, "orig", a) is getattr(b, "orig", b)
         if isinstance(a, SAny) and isinstance(b, SAny):
             if a.t.eq(b.t):
@@ -488,6 +491,12 @@ class Intrinsics:
 
     def subscript(self, obj, key):
         ex = self.ex
+        if isinstance(key, SLazy) and not isinstance(obj, HDict):
+            key = ex.resolve_lazy(key)
+        if isinstance(obj, HSpecList):
+            if "__getitem__" in obj.hooks:
+                return obj.hooks["__getitem__"](ex, obj, [key], {})
+            raise Unsupported(f"subscript of the abstracted list {obj.name}")
         if isinstance(key, tuple) and key and key[0] == "slice":
             _, lo, hi, step = key
             if step is not None:
@@ -677,6 +686,19 @@ class Intrinsics:
 
     def dict_get(self, d: HDict, key, raise_missing=False, default=None):
         ex = self.ex
+        if isinstance(key, SLazy):
+            from .api import Const
+
+            if d.concrete is not None and all(isinstance(a, Const) and a.value in d.concrete for a in key.alts):
+                # every alternative is a key: the result is one of the corresponding values (no fork)
+                r = ex.fresh("lookup", "any")
+                opts = []
+                for i, a in enumerate(key.alts):
+                    vt, _ = ex.lift(d.concrete[a.value])
+                    opts.append(z3.And(key.tag == i, r.t == vt))
+                ex.assume(z3.Or(*opts))
+                return r
+            key = ex.resolve_lazy(key)
         if d.concrete is not None:
             if ex.is_concrete(key):
                 if key in d.concrete:
@@ -755,6 +777,14 @@ class Intrinsics:
     # ------------------------------------------------------------ attributes
     def getattr(self, obj, attr, frame):
         ex = self.ex
+        if isinstance(obj, HSpecList):
+            if attr in obj.hooks:
+                return PyCallable(lambda ex_, a, k, _l=obj, _h=obj.hooks[attr]: _h(ex_, _l, a, k), f"{obj.name}.{attr}")
+            raise Unsupported(f"operation .{attr} on the abstracted list {obj.name}")
+        if isinstance(obj, HObj) and obj.cls.name == "re.Match":
+            from .regex_model import match_getattr
+
+            return match_getattr(self, obj, attr)
         if isinstance(obj, HObj):
             if attr in obj.fields:
                 v = obj.fields[attr]
@@ -797,7 +827,7 @@ class Intrinsics:
             if r and r[0] == "func":
                 return FuncRef(r[1], r[3], cls=(r[1], r[2]), qual=f"{r[2].name}.{attr}")
             if r and r[0] == "assign":
-                return ex.eval(r[3], _frame_for(ex, r[1]))
+                return self.class_constant(r[1], r[2], attr, r[3])
             raise Unsupported(f"class attribute {obj.name}.{attr}")
         from .intrinsics_lib import SPath, path_getattr
 
@@ -886,10 +916,31 @@ class Intrinsics:
                 return f
             return BoundMethod(obj, f)
         if r[0] == "assign":
-            return ex.eval(r[3], _frame_for(ex, r[1]))
+            return self.class_constant(r[1], r[2], attr, r[3])
         if r[0] == "external":
             return BoundIntrinsic(obj, r[1], attr)
         raise Unsupported(f"class attribute {cref.name}.{attr}")
+
+    def class_constant(self, mod, cls, attr, expr):
+        ex = self.ex
+        key = ("classconst", mod.name, cls.name, attr)
+        if key in ex.sym_names:
+            return ex.sym_names[key]
+        import re as _re
+
+        try:
+            v = ex.eval(expr, _frame_for(ex, mod))
+        except Unsupported:
+            v = ex.native_constant(mod.name, f"{cls.name}.{attr}")
+            if isinstance(v, dict):
+                v = HDict(concrete=dict(v))
+            elif isinstance(v, (list,)):
+                v = HList(items=list(v))
+        if isinstance(v, _re.Pattern):
+            ex.pattern_names[attr] = v
+        if ex.is_concrete(v) or isinstance(v, (ClassRef, ExternalRef, EnumVal)):
+            ex.sym_names[key] = v
+        return v
 
     def obj_truth(self, o: HObj):
         ex = self.ex
@@ -1216,6 +1267,12 @@ class Intrinsics:
         if isinstance(fv, BoundIntrinsic):
             return self.method(fv.recv, fv.tname, fv.mname, args, kwargs)
         obj = fv.obj
+        import re as _re
+
+        if isinstance(getattr(obj, "__self__", None), _re.Pattern) and obj.__name__ in ("match", "fullmatch", "search"):
+            from .regex_model import regex_match
+
+            return regex_match(self, obj.__self__, args, kwargs, obj.__name__)
         h = _EXT.get(_key(obj))
         if h is not None:
             return h(self, args, kwargs)
@@ -1233,6 +1290,10 @@ class Intrinsics:
 
     def method(self, recv, tname, mname, args, kwargs):
         ex = self.ex
+        if tname == "re.Match":
+            from .regex_model import match_method
+
+            return match_method(self, recv, mname, args, kwargs)
         if isinstance(recv, (str, int, float, tuple, range, frozenset)) and not isinstance(recv, Tagged) and all(ex.is_concrete(a) for a in args) and all(ex.is_concrete(a) for a in kwargs.values()):
             return ex.concrete_op(lambda: builtins.getattr(recv, mname)(*args, **kwargs))
         h = _METHODS.get((tname, mname))
